@@ -146,11 +146,35 @@ func Run(c *vh.Ctx) {
 			add("past-crasher", k[0], k[1], k[2] == "run")
 		}
 	}
+	// phase A: lex + parse (a hang or crash here is a violation)
 	reqs := make([]lexh.Req, len(cases))
 	for i, cs := range cases {
-		reqs[i] = lexh.Req{ID: i, Mode: cs.Mode, Hex: cs.Hex, Lex: true, Parse: true, Run: cs.Run}
+		reqs[i] = lexh.Req{ID: i, Mode: cs.Mode, Hex: cs.Hex, Lex: true, Parse: true}
 	}
 	verd := pool.Run(reqs)
+	// phase B: run the accepted side-effect-free programs (a program that itself runs long is not judged)
+	var runIdx []int
+	var runReqs []lexh.Req
+	for i, cs := range cases {
+		if cs.Run && verd[i].Resp != nil && verd[i].Resp.Parse == "ok" {
+			runIdx = append(runIdx, i)
+			runReqs = append(runReqs, lexh.Req{ID: i, Mode: cs.Mode, Hex: cs.Hex, Parse: true, Run: true})
+		}
+	}
+	runVerd := pool.Run(runReqs)
+	for k, i := range runIdx {
+		rv := runVerd[k]
+		switch {
+		case rv.Hung:
+			c.Hit("run:long(not judged)")
+		case rv.Resp == nil:
+			verd[i].Resp.Run = "died"
+			verd[i].Resp.RunMsg = rv.Died
+		default:
+			verd[i].Resp.Run = rv.Resp.Run
+			verd[i].Resp.RunMsg = rv.Resp.RunMsg
+		}
+	}
 	var mans []string
 	if m != nil {
 		lines := make([]string, len(cases))
@@ -176,12 +200,6 @@ func Run(c *vh.Ctx) {
 		}
 		c.Hit("input:" + k)
 		n := len(cs.Hex) / 2
-		if v.Hung && cs.Run && (strings.HasPrefix(v.HangSite, "node.") || strings.HasPrefix(v.HangSite, "runtime.") || strings.HasPrefix(v.HangSite, "data.")) {
-			// the accepted (mutated) program itself loops: not a lex/parse hang
-			c.Eval(cs.Mode+cs.Hex, true)
-			c.Hit("outcome:program-runs-long(not judged)")
-			continue
-		}
 		if v.Hung {
 			c.Eval(cs.Mode+cs.Hex, true)
 			c.Violation("hang:"+v.HangSite, fmt.Sprintf("lexing+parsing %d bytes did not finish within %v, looping in %s (input %s)", n, lexh.Timeout(n), v.HangSite, cs.Name), cs)
@@ -208,6 +226,9 @@ func Run(c *vh.Ctx) {
 		}
 		if r.Run != "" {
 			c.Hit("run:" + r.Run)
+			if r.Run == "died" {
+				c.Violation("run:died:"+firstWords(r.RunMsg), "the process died while running an accepted program: "+r.RunMsg, cs)
+			}
 			if r.Run == "go-panic" {
 				// the clause of C01: an accepted program never crashes *because of a missing operand or
 				// clause* (a nil child node). Other Go panics of ill-typed operands belong to C03.
